@@ -71,6 +71,7 @@ func (c *conn) receiveClose(msg pmpx.Message) status.Status {
 	m := msg.ChannelClose()
 	id := m.Id()
 
+	defer vtr("rl.done", id, 0, 0)
 	vtr("rl.del", id, 0, 0)
 	ch, ok := c.channels.Delete(id)
 	if !ok {
@@ -85,6 +86,7 @@ func (c *conn) receiveData(msg pmpx.Message) status.Status {
 	m := msg.ChannelData()
 	id := m.Id()
 
+	defer vtr("rl.done", id, 0, 0)
 	vtr("rl.get", id, 0, 0)
 	ch, ok := c.channels.Get(id)
 	if !ok {
@@ -97,6 +99,7 @@ func (c *conn) receiveWindow(msg pmpx.Message) status.Status {
 	m := msg.ChannelWindow()
 	id := m.Id()
 
+	defer vtr("rl.done", id, 0, 0)
 	vtr("rl.get", id, 0, 0)
 	ch, ok := c.channels.Get(id)
 	if !ok {
